@@ -211,24 +211,24 @@ pub fn gen_c23(r: &mut Rng, kind_hint: usize) -> (SemCase, String) {
         "singleton#ref" => {
             let f = b.un(Op::Fold { pers: pers1(r), f: FoldFn::Sum, replay: true }, blocked);
             let s = b.un(Op::Singleton, f);
-            if r.chance(1, 2) {
-                b.sink(s);
-            }
             let reader = b.src(Ty::I);
             let rf = r.pick(&[RefFn::PairWith, RefFn::Add]).clone();
             let o = b.un(Op::RefMap { target: s.node, f: rf, group: None }, reader);
             b.sink(o);
+            if r.chance(1, 2) {
+                b.sink(s);
+            }
         }
         "handoff#ref" => {
             let h = b.un(Op::Handoff, blocked);
             info.handoffs += 1;
-            if r.chance(1, 2) {
-                b.sink(h);
-            }
             let reader = b.src(Ty::I);
             let rf = r.pick(&[RefFn::Len, RefFn::SumBuf]).clone();
             let o = b.un(Op::RefMap { target: h.node, f: rf, group: None }, reader);
             b.sink(o);
+            if r.chance(1, 2) {
+                b.sink(h);
+            }
         }
         _ => {
             // emit-then-contradict probe: a streaming operator downstream of a blocking one
@@ -427,4 +427,121 @@ fn c24_scripts(r: &mut Rng, prog: &Prog, bound: i64) -> Vec<Script> {
         scripts.push(Script { steps });
     }
     scripts
+}
+
+/// C25: one or two singleton()/handoff() targets fed by a same-tick pipeline, 2-5 reference
+/// holders with access groups (readers may share a group, a writer is alone in its group), each
+/// fed by its own source; optionally the pipe consumer of the target.
+pub fn gen_c25(r: &mut Rng, _hint: usize) -> (SemCase, String) {
+    let mut b = B::new();
+    let ntargets = 1 + r.below(2);
+    let mut tags = vec![];
+    let mut kinds = vec![];
+    for _t in 0..ntargets {
+        let nfeed = 1 + r.below(2);
+        let ins: Vec<Edge> = (0..nfeed).map(|_| b.src(Ty::I)).collect();
+        let mut info = DeepInfo { handoffs: 0, long_branch: -1, depth: 0 };
+        let depth = 1 + r.below(5);
+        let fed = deep(r, &mut b, ins, depth, &mut info);
+        let singleton = r.chance(1, 2);
+        let target = if singleton {
+            let f = b.un(Op::Fold { pers: pers1(r), f: FoldFn::Sum, replay: true }, fed);
+            b.un(Op::Singleton, f)
+        } else {
+            b.un(Op::Handoff, fed)
+        };
+        kinds.push(if singleton { "singleton" } else { "handoff" });
+        let nh = 2 + r.below(4);
+        let grouped = r.chance(6, 7);
+        // holder kinds
+        let mut holders: Vec<(RefFn, Option<u32>)> = vec![];
+        if grouped {
+            let mut g = r.below(2) as u32;
+            let mut prev_write = false;
+            for k in 0..nh {
+                let write = r.chance(2, 5);
+                let f = if singleton {
+                    if write {
+                        RefFn::MulAdd(r.range(2, 3))
+                    } else {
+                        r.pick(&[RefFn::PairWith, RefFn::Add]).clone()
+                    }
+                } else if write {
+                    r.pick(&[RefFn::Push, RefFn::Retain]).clone()
+                } else {
+                    r.pick(&[RefFn::Len, RefFn::SumBuf]).clone()
+                };
+                // a writer is alone in its group; readers may share the previous reader's group
+                if k > 0 && (write || prev_write || r.chance(2, 3)) {
+                    g += 1 + r.below(3) as u32;
+                }
+                holders.push((f, Some(g)));
+                prev_write = write;
+            }
+        } else if r.chance(1, 2) {
+            // ungrouped: readers only
+            for _ in 0..nh {
+                let f = if singleton {
+                    r.pick(&[RefFn::PairWith, RefFn::Add]).clone()
+                } else {
+                    r.pick(&[RefFn::Len, RefFn::SumBuf]).clone()
+                };
+                holders.push((f, None));
+            }
+        } else {
+            // ungrouped: a single writer
+            let f = if singleton { RefFn::MulAdd(3) } else { r.pick(&[RefFn::Push, RefFn::Retain]).clone() };
+            holders.push((f, None));
+        }
+        // non-triviality: >= 3 groups with a writer between two readers
+        let mut groups: Vec<(u32, bool)> = vec![];
+        for (f, g) in &holders {
+            if let Some(g) = g {
+                if groups.last().map(|x| x.0) != Some(*g) {
+                    groups.push((*g, f.is_write()));
+                }
+            }
+        }
+        let mut sandwiched = false;
+        for i in 1..groups.len().saturating_sub(1) {
+            if groups[i].1 && groups[..i].iter().any(|x| !x.1) && groups[i + 1..].iter().any(|x| !x.1) {
+                sandwiched = true;
+            }
+        }
+        tags.push(("writer_between_readers".to_string(), sandwiched as i64));
+        tags.push(("groups".to_string(), groups.len() as i64));
+        for (f, g) in holders {
+            let s = b.src(Ty::I);
+            let o = b.un(Op::RefMap { target: target.node, f, group: g }, s);
+            b.sink(o);
+        }
+        if r.chance(2, 3) {
+            b.sink(target);
+        }
+    }
+    let mut prog = b.prog();
+    // declaration order of the statements is irrelevant: groups are numbered
+    let mut o: Vec<usize> = (0..prog.nodes.len()).collect();
+    for i in (1..o.len()).rev() {
+        o.swap(i, r.below(i + 1));
+    }
+    prog.stmt_order = Some(o);
+    let mut scripts = vec![];
+    for _ in 0..8 {
+        let ticks = 2 + r.below(4);
+        let mut steps = vec![];
+        for _ in 0..ticks {
+            let send = prog
+                .sources
+                .iter()
+                .map(|_| {
+                    let n = r.below(5);
+                    (0..n).map(|_| Val::I(r.range(0, 5))).collect()
+                })
+                .collect();
+            steps.push(Step { send, run: Run::Tick });
+        }
+        scripts.push(Script { steps });
+    }
+    (SemCase { prog, scripts, tags }, kinds.join("+"))
 }
